@@ -271,13 +271,20 @@ def estimator_dispatch(vc, cfg):
 
 
 def _ext_cfgs(tier):
-    names = ["2x3a", "2x3b", "2x3c"] if tier == "quick" else [a for a in A_FAMILY if "float" not in a]
+    # fully symbolic bounds and target only with ONE surplus source: with two (2x4a, 2x4b, 3x5a) the acceptance patterns of the basic
+    # solutions give a path set that did not finish within an hour per configuration -- those systems are covered by the local
+    # configurations below (concrete bounds, target in a symbolic neighbourhood) and by pinned / random native inputs
+    names = ["2x3a", "2x3b", "2x3c"] if tier == "quick" else [a for a in A_FAMILY if "float" not in a and len(A_FAMILY[a][0]) - len(A_FAMILY[a]) <= 1]
     out = [{"A": a} for a in names]
     out.append({"A": "2x3a", "lb0": True})
     # two surplus sources: concrete bounds, target in small symbolic neighbourhoods of several interior points
     out.append({"A": "2x4a", "local": True})
     out.append({"A": "2x4a", "local": True, "ctr": [0.8, 0.3, 1.6, 0.2]})
     out.append({"A": "2x4a", "local": True, "ctr": [0.2, 1.2, 0.4, 1.0]})
+    if tier != "quick":
+        out.append({"A": "2x4b", "local": True})
+        out.append({"A": "2x4b", "local": True, "ctr": [0.8, 0.3, 1.6, 0.2]})
+        out.append({"A": "3x5a", "local": True})
     return out
 
 
